@@ -532,7 +532,7 @@ func (arr *array) extendRune(arg py.Object) (py.Object, error) {
 
 	for {
 		o, err := nxt.M__next__()
-		if err == py.StopIteration {
+		if py.IsException(py.StopIteration, err) {
 			break
 		}
 		_, err = arr.appendRune(o)
@@ -553,7 +553,7 @@ func (arr *array) extendI8(arg py.Object) (py.Object, error) {
 
 	for {
 		o, err := nxt.M__next__()
-		if err == py.StopIteration {
+		if py.IsException(py.StopIteration, err) {
 			break
 		}
 		_, err = arr.appendI8(o)
@@ -574,7 +574,7 @@ func (arr *array) extendI16(arg py.Object) (py.Object, error) {
 
 	for {
 		o, err := nxt.M__next__()
-		if err == py.StopIteration {
+		if py.IsException(py.StopIteration, err) {
 			break
 		}
 		_, err = arr.appendI16(o)
@@ -595,7 +595,7 @@ func (arr *array) extendI32(arg py.Object) (py.Object, error) {
 
 	for {
 		o, err := nxt.M__next__()
-		if err == py.StopIteration {
+		if py.IsException(py.StopIteration, err) {
 			break
 		}
 		_, err = arr.appendI32(o)
@@ -616,7 +616,7 @@ func (arr *array) extendI64(arg py.Object) (py.Object, error) {
 
 	for {
 		o, err := nxt.M__next__()
-		if err == py.StopIteration {
+		if py.IsException(py.StopIteration, err) {
 			break
 		}
 		_, err = arr.appendI64(o)
@@ -637,7 +637,7 @@ func (arr *array) extendU8(arg py.Object) (py.Object, error) {
 
 	for {
 		o, err := nxt.M__next__()
-		if err == py.StopIteration {
+		if py.IsException(py.StopIteration, err) {
 			break
 		}
 		_, err = arr.appendU8(o)
@@ -658,7 +658,7 @@ func (arr *array) extendU16(arg py.Object) (py.Object, error) {
 
 	for {
 		o, err := nxt.M__next__()
-		if err == py.StopIteration {
+		if py.IsException(py.StopIteration, err) {
 			break
 		}
 		_, err = arr.appendU16(o)
@@ -679,7 +679,7 @@ func (arr *array) extendU32(arg py.Object) (py.Object, error) {
 
 	for {
 		o, err := nxt.M__next__()
-		if err == py.StopIteration {
+		if py.IsException(py.StopIteration, err) {
 			break
 		}
 		_, err = arr.appendU32(o)
@@ -700,7 +700,7 @@ func (arr *array) extendU64(arg py.Object) (py.Object, error) {
 
 	for {
 		o, err := nxt.M__next__()
-		if err == py.StopIteration {
+		if py.IsException(py.StopIteration, err) {
 			break
 		}
 		_, err = arr.appendU64(o)
@@ -721,7 +721,7 @@ func (arr *array) extendF32(arg py.Object) (py.Object, error) {
 
 	for {
 		o, err := nxt.M__next__()
-		if err == py.StopIteration {
+		if py.IsException(py.StopIteration, err) {
 			break
 		}
 		_, err = arr.appendF32(o)
@@ -742,7 +742,7 @@ func (arr *array) extendF64(arg py.Object) (py.Object, error) {
 
 	for {
 		o, err := nxt.M__next__()
-		if err == py.StopIteration {
+		if py.IsException(py.StopIteration, err) {
 			break
 		}
 		_, err = arr.appendF64(o)
